@@ -294,6 +294,9 @@ dec_text!(c03_dec_o_p0, c03_dec_o_p1, c03_dec_o_p2, c03_dec_o_p3, c03_dec_o_body
 /// (`ValueSeed::visit_borrowed_str`), which must apply the same validity rules as the typed path.
 macro_rules! dec_text_dyn {
     ($h:ident, $pos:expr, $N:expr, $sig:expr, |$t:ident| $content_ok:expr, |$v:ident| $text:expr) => {
+        dec_text_dyn!($h, $pos, $N, kani::any(), $sig, |$t| $content_ok, |$v| $text);
+    };
+    ($h:ident, $pos:expr, $N:expr, $be:expr, $sig:expr, |$t:ident| $content_ok:expr, |$v:ident| $text:expr) => {
         #[kani::proof]
         #[kani::unwind(10)]
         #[kani::stub(alloc::fmt::format, no_format)]
@@ -304,7 +307,7 @@ macro_rules! dec_text_dyn {
             let buf: [u8; $N] = kani::any();
             let len: usize = kani::any();
             kani::assume(len <= $N);
-            let be: bool = kani::any();
+            let be: bool = $be;
             let data = Data::new(&buf[..len], ctx($pos, be));
             let r = data.deserialize_for_dynamic_signature::<_, zvariant::Value<'_>>($sig);
             fn content_ok($t: &[u8]) -> bool {
@@ -345,5 +348,13 @@ dec_text_dyn!(c03_dyn_o_p2, 2, 8, Signature::ObjectPath, |t| crate::refmodel::na
 });
 dec_text_dyn!(c03_dyn_s_p0, 0, 7, Signature::Str, |_t| true, |v| match v {
     zvariant::Value::Str(p) => Some(p.as_str()),
+    _ => None,
+});
+dec_text_dyn!(c03_dyn_o_p0_le, 0, 7, false, Signature::ObjectPath, |t| crate::refmodel::names::object_path(t), |v| match v {
+    zvariant::Value::ObjectPath(p) => Some(p.as_str()),
+    _ => None,
+});
+dec_text_dyn!(c03_dyn_o_p0_be, 0, 7, true, Signature::ObjectPath, |t| crate::refmodel::names::object_path(t), |v| match v {
+    zvariant::Value::ObjectPath(p) => Some(p.as_str()),
     _ => None,
 });
